@@ -20,7 +20,7 @@ use std::collections::BTreeSet;
 
 pub fn run_case(ctx: &Ctx, case: u64, ev: &mut Ev) {
     let mut rng = Rng::derive(ctx.seed, "C03", case);
-    rng.big = ctx.tier == crate::Tier::Thorough && rng.chance(0.2);
+    rng.big = crate::draw_big(ctx, &mut rng);
     match rng.below(10) {
         0..=4 => run_elim(case, &mut rng, ev),
         5..=7 => run_compose(case, &mut rng, ev),
